@@ -41,12 +41,15 @@ import (
 	"fmt"
 	"io"
 	"io/ioutil"
+	"net/http"
+	"net/http/httptest"
 	"math/big"
 	"math/rand"
 	"net"
 	"os"
 	"path/filepath"
 	"runtime"
+	"strings"
 	"sync"
 	"sync/atomic"
 	"testing"
@@ -74,6 +77,7 @@ type c17Round struct {
 	TimeoutMs int   `json:"timeout_ms"` // ProcessorConfig.AppTimeout (0 = off)
 	LogLevel  bool  `json:"log_level"`  // toggle log.SetLevel concurrently
 	Grpc      bool  `json:"grpc"`       // some applications stream to the live local trace observer endpoint
+	Real      bool  `json:"real"`       // the REAL collector client (collector.NewClient: TLS, limiter, perform) against a local server
 }
 
 type c17Stats struct {
@@ -274,6 +278,14 @@ func (c *c17Collector) Execute(cmd *collector.RpmCmd, cs collector.RpmControls) 
 	if h&7 == 0 {
 		cs.Collectible.CollectorJSON(true)
 	}
+	code, body := c.decide(cmd.Name, k, h, "")
+	resp := c17Resp(code, body)
+	c.stats.bump(c.stats.Collector, fmt.Sprintf("%s:%d", cmd.Name, resp.StatusCode))
+	return resp
+}
+
+// decide: the collector's answer to the k-th request (status and JSON body of the return value)
+func (c *c17Collector) decide(name string, k int64, h uint64, self string) (int, string) {
 	if d := (h >> 8) % 4; d > 0 {
 		time.Sleep(time.Duration(d) * 300 * time.Microsecond)
 	}
@@ -288,11 +300,13 @@ func (c *c17Collector) Execute(cmd *collector.RpmCmd, cs collector.RpmControls) 
 		}
 		return codes[0]
 	}
-	var resp collector.RPMResponse
-	switch cmd.Name {
+	switch name {
 	case collector.CommandPreconnect:
 		code := pick([]int{900, 60, 40}, []int{200, 503, 409})
-		resp = c17Resp(code, fmt.Sprintf(`{"redirect_host":"coll%d.example"}`, k%3))
+		if self != "" {
+			return code, fmt.Sprintf(`{"redirect_host":"%s"}`, self)
+		}
+		return code, fmt.Sprintf(`{"redirect_host":"coll%d.example"}`, k%3)
 	case collector.CommandConnect:
 		code := pick([]int{860, 50, 40, 25, 25}, []int{200, 503, 409, 401, 410})
 		run := atomic.AddInt64(&c.runs, 1)
@@ -305,18 +319,29 @@ func (c *c17Collector) Execute(cmd *collector.RpmCmd, cs collector.RpmControls) 
 			`{"match_expression":"drop","replacement":"kept","each_segment":true,"eval_order":2}],`+
 			`"messages":[{"message":"hello","level":"debug"}]}`, run, pa, ps, run)
 		_, _, _ = pc, pe, pl
-		resp = c17Resp(code, body)
+		return code, body
 	default:
-		code := pick([]int{700, 100, 30, 50, 50, 30, 40}, []int{202, 503, 429, 413, 409, 401, 410})
-		resp = c17Resp(code, "")
+		return pick([]int{700, 100, 30, 50, 50, 30, 40}, []int{202, 503, 429, 413, 409, 401, 410}), ""
 	}
-	c.stats.bump(c.stats.Collector, fmt.Sprintf("%s:%d", cmd.Name, resp.StatusCode))
-	return resp
+}
+
+// ServeHTTP: the same collector behind a real TLS server, for the rounds that use the real client
+func (c *c17Collector) ServeHTTP(w http.ResponseWriter, r *http.Request) {
+	ioutil.ReadAll(r.Body)
+	name := r.URL.Query().Get("method")
+	k := atomic.AddInt64(&c.n, 1)
+	code, body := c.decide(name, k, c17Mix(c.seed, k), r.Host)
+	c.stats.bump(c.stats.Collector, fmt.Sprintf("%s:%d", name, code))
+	w.WriteHeader(code)
+	if code == 200 {
+		fmt.Fprintf(w, `{"return_value":%s}`, body)
+	}
 }
 
 // ------------------------------------------------------------------ agent side: messages
 
 type c17App struct {
+	redirect, version   string
 	name, license, host string
 	toHost              string
 	toPort              uint16
@@ -329,8 +354,12 @@ func c17AppInfoMsg(a *c17App, runID string) []byte {
 	license := b.CreateString(a.license)
 	appname := b.CreateString(a.name)
 	lang := b.CreateString("php")
-	version := b.CreateString("11.0.0.1")
-	coll := b.CreateString("")
+	ver := a.version
+	if ver == "" {
+		ver = "11.0.0.1"
+	}
+	version := b.CreateString(ver)
+	coll := b.CreateString(a.redirect)
 	settings := b.CreateString(fmt.Sprintf(`{"newrelic.distributed_tracing_enabled":%v,"newrelic.appname":"%s"}`, a.dt, a.name))
 	env := b.CreateString(`[["k","v"]]`)
 	labels := b.CreateString(`[{"label_type":"a","label_value":"b"}]`)
@@ -558,7 +587,20 @@ func c17RunRound(r c17Round, idx int, tmp string, grpcPort int, closedPort int) 
 		runtime.GOMAXPROCS(r.Procs)
 	}
 	inner := &c17Collector{seed: r.Seed, stats: st}
-	client := collector.NewLimitClient(inner, 3, 2*time.Second)
+	var client collector.Client = collector.NewLimitClient(inner, 3, 2*time.Second)
+	realHost := ""
+	if r.Real {
+		srv := httptest.NewTLSServer(inner)
+		defer srv.Close()
+		ca := filepath.Join(tmp, fmt.Sprintf("c17-ca-%d.pem", idx))
+		ioutil.WriteFile(ca, pem.EncodeToMemory(&pem.Block{Type: "CERTIFICATE", Bytes: srv.Certificate().Raw}), 0600)
+		rc, err := collector.NewClient(&collector.ClientConfig{CAFile: ca, MaxParallel: 3, Timeout: 2 * time.Second})
+		if err != nil {
+			panic(err)
+		}
+		client = rc
+		realHost = strings.TrimPrefix(srv.URL, "https://")
+	}
 	p := NewProcessor(ProcessorConfig{Client: client, AppTimeout: time.Duration(r.TimeoutMs) * time.Millisecond})
 	p.appConnectBackoff = 15 * time.Millisecond
 	runDone := make(chan struct{})
@@ -578,7 +620,7 @@ func c17RunRound(r c17Round, idx int, tmp string, grpcPort int, closedPort int) 
 	// application generations: a new name whenever the old one died
 	appOf := func(k, gen int) *c17App {
 		a := &c17App{name: fmt.Sprintf("app%d-%d-g%d", idx, k, gen), license: fmt.Sprintf("%040d", 1000+k),
-			host: fmt.Sprintf("host%d", k%3), dt: k%2 == 0}
+			host: fmt.Sprintf("host%d", k%3), dt: k%2 == 0, redirect: realHost, version: fmt.Sprintf("11.%d.%d.1", k%4, gen%3)}
 		switch k % 4 {
 		case 1:
 			a.toHost, a.toPort = "127.0.0.1", uint16(closedPort)
